@@ -331,6 +331,19 @@ func (c *Ctx) runCase(sec *Section, i, global int) {
 	sec.Run(c, i)
 }
 
+// RunOther runs case i of another section of the same check inside the running case (used by
+// sections that need what earlier cases left behind when they are replayed alone)
+func (c *Ctx) RunOther(sec *Section, i int) {
+	savedSec, savedIdx, savedRng := c.Section, c.Index, c.Rng
+	defer func() {
+		recover()
+		c.Section, c.Index, c.Rng = savedSec, savedIdx, savedRng
+	}()
+	c.Section, c.Index = sec.Name, i
+	c.Rng = caseRng(c.Check.ID, c.Tier, c.Seed, sec.Name, i)
+	sec.Run(c, i)
+}
+
 func clipStack(s string) string {
 	if len(s) > 6000 {
 		return s[:6000] + "\n…"
